@@ -170,3 +170,27 @@ def run_method(case):
 
 
 HANDLERS['method'] = run_method
+
+
+def run_calls(case):
+    """a sequence of method calls on one built state; returns [0] + the integer results of the calls that
+    are marked as reads, or the exception encoding + index of the failing call"""
+    import implrun
+    arm = build(case['state'])
+    out = []
+    for idx, (path, args, keep) in enumerate(case['calls']):
+        obj = arm
+        parts = path.split('.')
+        for p in parts[:-1]:
+            obj = getattr(obj, p)
+        try:
+            with contextlib.redirect_stdout(io.StringIO()):
+                r = getattr(obj, parts[-1])(*args)
+        except Exception as e:  # noqa
+            return implrun.exn_enc(e) + [idx]
+        if keep:
+            out.append(int(r))
+    return [0] + out
+
+
+HANDLERS['calls'] = run_calls
